@@ -11,7 +11,7 @@ use serde_json::{json, Value};
 use std::collections::BTreeSet;
 
 fn env_box(lo: [f32; 3], hi: [f32; 3], n: usize) -> EnvObj {
-    EnvObj { lo, hi, subdiv: n, pose: Iso::identity() }
+    EnvObj { lo, hi, subdiv: n, pose: Iso::identity(), shape: 0 }
 }
 
 /// Environment layouts in world coordinates, built around the zero posture (see cell.rs for link boxes).
@@ -34,10 +34,15 @@ pub fn env_layout(k: usize) -> Vec<EnvObj> {
         8 => vec![env_box([-0.05, -0.2, 1.75], [0.35, 0.2, 2.30], 2)],
         // box 2 cm from the tool
         9 => vec![env_box([0.18, -0.05, 1.9], [0.30, 0.05, 2.0], 1)],
+        // a finely meshed octahedron (4 cm across, turned about two axes) 0.5-1 cm from the upper arm's +x face: entirely inside
+        // a 5 cm margin, while the box around its *local* extent, turned with it, is larger than the body itself
+        11 => vec![EnvObj { lo: [-0.02; 3], hi: [0.02; 3], subdiv: 3, pose: Iso::new(mmul(&rotz(0.7), &rotx(0.5)), [0.225, 0.0, 0.80]), shape: 1 }],
+        // one mesh made of two separate cubes: one 1 cm from the upper arm, the other 0.9 m away
+        12 => vec![EnvObj { lo: [0.21, -0.01, 0.79], hi: [0.23, 0.01, 0.81], subdiv: 3, pose: Iso::identity(), shape: 2 }],
         _ => vec![far, near_l4(0.02), env_box([0.18, -0.05, 1.9], [0.30, 0.05, 2.0], 2)],
     }
 }
-pub const N_LAYOUTS: usize = 11;
+pub const N_LAYOUTS: usize = 13;
 
 pub fn postures(thorough: bool) -> Vec<Joints> {
     let q1: &[f64] = if thorough { &[0.0, 0.8, -2.0] } else { &[0.0, 0.8] };
@@ -73,6 +78,16 @@ fn base_tables() -> Vec<SafetyDesc> {
         SafetyDesc { to_env: 0.02, to_robot: NEVER_COLLIDES, special: vec![((1, 3), 0.05), ((4, 0), 0.0), ((J_TOOL, 2), 0.04), ((J_BASE, 3), 0.03)], mode: 1 },
         SafetyDesc { to_env: NEVER_COLLIDES, to_robot: NEVER_COLLIDES, special: vec![((2, ENV_START_IDX), 0.05), ((5, 1), 0.05)], mode: 1 },
     ]
+}
+
+thread_local! {
+    static DECOY: rs_opw_kinematics::kinematics_with_shape::KinematicsWithShape = {
+        let mut cell = CellDesc::standard();
+        cell.base = Some(Iso::new(rotz(1.1), [0.4, 0.3, -0.2]));
+        cell.envs = vec![EnvObj { lo: [-0.6, -0.6, 0.2], hi: [0.6, 0.6, 1.6], subdiv: 1, pose: Iso::identity(), shape: 0 }];
+        cell.safety = SafetyDesc { to_env: 0.2, to_robot: 0.0, special: vec![], mode: 0 };
+        cell.robot()
+    };
 }
 
 /// Rayon pools of 1, 2, 4, 8 and 16 threads, built once per process.
@@ -178,6 +193,11 @@ pub fn eval_prepared(cfg: &Config, prep: &mut Prepared, body_table: &SafetyDesc,
             .map(|((a, b), _)| format!("/never({},{})", a, b))
             .unwrap_or_default()
     };
+    // an unrelated robot of the same thread (other meshes poses, one obstacle through the arm, 20 cm safety) is asked
+    // about the same joints first, through every entry point: no verdict may leak from one instance to another
+    DECOY.with(|d| {
+        let _ = (d.collides(&cfg.q), d.collision_details(&cfg.q), d.near(&cfg.q, &SafetyDesc { to_env: 0.2, to_robot: 0.0, special: vec![], mode: 1 }.build()));
+    });
     let observed: Vec<(usize, usize)> = match near_table {
         Some(t) => robot.near(&cfg.q, &t.build()),
         None => robot.collision_details(&cfg.q),
@@ -520,7 +540,7 @@ pub fn run(ctx: &Ctx) -> Report {
     validate_oracle(&mut rep);
     audit_sources(&mut rep);
     rep.traces_validated = rep.transitions;
-    rep.rule = "synthetic box robot (vertex counts varied by face subdivision) x presence of tool/base (incl. a moved base) x 11 environment layouts \
+    rep.rule = "synthetic box robot (vertex counts varied by face subdivision) x presence of tool/base (incl. a moved base) x 13 environment layouts (incl. a turned octahedron and a two-piece mesh inside the safety margin) \
                 (none, far, intersecting, gaps 0.4r/0.9r/1.1r, finely/coarsely meshed small body inside the inflated box of a link, enclosing body, near the tool, \
                 several objects) x postures (folded elbow, leaning into base, ...) x safety tables (touch, 2 cm, 5 cm, mixed, per-pair overrides smaller/larger, \
                 NEVER_COLLIDES on each candidate pair in both key orders) x modes x entry points {collision_details, collides, RobotBody::collides, near with a \
